@@ -5,7 +5,9 @@ CONSTANTS
   MaxDepth = 2
   MaxTries = 2
   Faulty = FALSE
+  Extra = 0
+  Reparse = FALSE
 SPECIFICATION Spec
-INVARIANTS CursorInBounds TopBound LastInBounds
+INVARIANTS CursorInBounds TopBound LastInBounds ReparseBound
 PROPERTIES Termination
 CHECK_DEADLOCK FALSE
